@@ -71,7 +71,7 @@ def check(ctx):
         ctx.touch(m.qualname)
 
         def run(x):
-            return x._exec_function(m, dict(args or x.symbolic_args(m)), Inst(ci, {}, "self"), None, ci)
+            return x.enter(m, dict(args or x.symbolic_args(m)), Inst(ci, {}, "self"), None, ci)
 
         ps = [p for p in it.explore(run) if p.outcome == "return"]
         if len(ps) != 1:
@@ -91,8 +91,11 @@ def check(ctx):
         ctx.check(isinstance(p.value, Inst) and p.value.cls is other, "C20-a", m.qualname, m.where(), f"inverted() of the {nm} transform returns an instance of the other transform", signature="inverted()", got=getattr(getattr(p.value, "cls", None), "name", str(p.value)[:40]))
     m, p = meth(sc, "get_transform")
     ctx.check(isinstance(p.value, Inst) and p.value.cls is fwd, "C20-a", m.qualname, m.where(), "the scale's transform is the forward (square-root) transform", signature="get_transform")
-    name = sc.class_attrs.get("name")
-    scale_name = name.value if isinstance(name, ast.Constant) else None
+    # the class attribute `name`, evaluated (a literal, a module constant, an enumeration member's value, ...)
+    from ..values import ClassV
+
+    nvals = [p.value for p in it.explore(lambda x: x.getattr(ClassV(sc), "name")) if p.outcome == "return"]
+    scale_name = nvals[0].s if len(nvals) == 1 and isinstance(nvals[0], StrV) else None
     mod = P.module("bluebonnet.plotting")
     registered = any(
         isinstance(st, ast.Expr) and isinstance(st.value, ast.Call) and ast.unparse(st.value.func).endswith("register_scale") and st.value.args and isinstance(st.value.args[0], ast.Name) and st.value.args[0].id == "SquareRootScale"
@@ -214,7 +217,7 @@ def check(ctx):
     ctx.touch(q)
     from .common import FP
 
-    it2 = interp(ctx, opaque={FP + "FlowProperties.__init__"}, opaque_methods={"simulate", "recovery_factor"}, erase_masks=False)
+    it2 = interp(ctx, opaque={FP + "FlowProperties.__init__"}, opaque_methods={"bluebonnet.flow.reservoir:simulate", "bluebonnet.flow.reservoir:recovery_factor"}, erase_masks=False)
     val = lambda k: nf.fn(".value", nf.fn("[]", nf.sym("params"), nf.sym(repr(k))))
     seen = set()
     for p in returns(it2.run_function(q)):
@@ -224,8 +227,8 @@ def check(ctx):
             continue
         seen.add(sig)
         n_plot += len(pl)
-        recs = [e for e in p.events if e.kind == "int_call" and e.data["callee"].endswith(".recovery_factor")]
-        sims = [e for e in p.events if e.kind == "int_call" and e.data["callee"].endswith(".simulate")]
+        recs = [e for e in p.events if e.kind == "int_call" and e.data["callee"].startswith("bluebonnet.flow.reservoir.") and e.data["callee"].endswith(".recovery_factor")]
+        sims = [e for e in p.events if e.kind == "int_call" and e.data["callee"].startswith("bluebonnet.flow.reservoir.") and e.data["callee"].endswith(".simulate")]
         if len(pl) != 3 or len(recs) != 1 or len(sims) != 1:
             ctx.bad("C20-b", q + ":curves " + tag(p, ()), f.where(), "three curves (simulated recovery, scaled production, frac-face pressure) from one simulation", signature="comparison shape", plots=len(pl))
             continue
